@@ -32,7 +32,7 @@ pub enum Ty {
 }
 
 /// the other built-in types: (ASN.1 spelling, kind label, rasn type of the bindings, JER / TypeScript type)
-pub const BUILTINS: [(&str, &str, &str, &str); 17] = [
+pub const BUILTINS: [(&str, &str, &str, &str); 18] = [
     ("BIT STRING", "BITSTRING", "BitString", "bits"),
     ("OBJECT IDENTIFIER", "OID", "ObjectIdentifier", "string"),
     ("RELATIVE-OID", "RELATIVE-OID", "ObjectIdentifier", "string"),
@@ -51,7 +51,11 @@ pub const BUILTINS: [(&str, &str, &str, &str); 17] = [
     ("GeneralString", "GeneralString", "GeneralString", "string"),
     // X.680 48: ObjectDescriptor ::= [UNIVERSAL 7] IMPLICIT GraphicString
     ("ObjectDescriptor", "ObjectDescriptor", "GraphicString", "string"),
+    // not a built-in type but a leaf all the same: the fixed-type field of an information object class
+    // (X.681 14: the type is the field's type); `module_text` supplies the class
+    ("CLS.&id", "class-field", "Integer", "number"),
 ];
+pub const CLASS_HELPER: &str = "CLS ::= CLASS { &id INTEGER UNIQUE, &Type } WITH SYNTAX { &Type IDENTIFIED BY &id }\n";
 
 #[derive(Clone, Serialize, Deserialize, PartialEq, Debug)]
 pub enum Opt {
@@ -228,7 +232,11 @@ pub fn module_text(t: &Ty, tagdef: &str, implied: bool) -> String {
     if t.uses_ref() {
         body += "T ::= SEQUENCE { x BOOLEAN }\n";
     }
-    body += &format!("A ::= {}\n", ty_text(t, "A"));
+    let a = ty_text(t, "A");
+    if a.contains("CLS.&") {
+        body += CLASS_HELPER;
+    }
+    body += &format!("A ::= {a}\n");
     crate::common::module("M", tagdef, implied, &body)
 }
 
